@@ -275,14 +275,14 @@ func checkMinimalPush(data []byte, op byte) bool {
 // ---------------------------------------------------------------- machine
 
 type machine struct {
-	o       *Opts
-	genesis bool
-	minimal bool
-	numLen  int
-	stack   [][]byte
-	alt     [][]byte
-	steps   []Step
-	maxElem int
+	o                 *Opts
+	genesis           bool
+	minimal           bool
+	numLen            int
+	stack             [][]byte
+	alt               [][]byte
+	steps             []Step
+	maxElem           int
 	curScript, curIdx int
 	curOp             byte
 	inInstr           bool
